@@ -73,6 +73,10 @@ mixA漢
 
 [ÄΣ refA]: /foldA
 
+[r2A]: /two&#65;A
+[r3A]: <three A> (t3A)
+restA [r2A] [r3A]
+
 [äσ  REFa] [ÄΣ REFA][]
 
 [textA][refA] [refA][] [refA] ![imgA
@@ -138,9 +142,15 @@ a <!-- cmtB --> <?piB?> b
 カナB 半角B
 mixB字
 
-[refB]: /url&#x64;B 'title&#x65;B'
+[refB]: /url&#x64;B
+  'title&#x65;B'
+[ЖẞrefB]:
+/foldB
 
-[ЖẞrefB]: /foldB
+[r2B]:
+</two b> "t2
+B"
+restB [r2B]
 
 [жßREFb] [ЖẞREFB][]
 
@@ -207,10 +217,16 @@ func (w *failAfter) Write(p []byte) (int, error) {
 
 var errFailAfter = errors.New("destination failed")
 
+// convertBody converts doc from a buffer the goroutine owns and overwrites that buffer as soon as Convert has returned
+// (a server reusing its request buffer): nothing the instance keeps may still point into it.
 func convertBody(md goldmark.Markdown, doc string) func() Result {
 	return func() Result {
 		var b bytes.Buffer
-		err := md.Convert([]byte(doc), &b)
+		src := []byte(doc)
+		err := md.Convert(src, &b)
+		for i := range src {
+			src[i] = "<s \"&'>\n"[i%8]
+		}
 		return Result{b.Bytes(), err}
 	}
 }
@@ -317,6 +333,7 @@ var Scenarios = []Scenario{
 			a, b := plain.New(), full.New()
 			return &Instance{Bodies: []func() Result{convertBody(a, twoInst1), convertBody(b, twoInst2), convertBody(a, twoInst3)}}
 		}},
+	{"S11-same-document", "three goroutines Convert the SAME document, each from its own buffer which it overwrites after its call has returned: a result memoised per source text by one call must not point into that call's buffer", 3, converts(false, tiny1, tiny1, tiny1)},
 	{"S7-default-instance", "two goroutines call the package-level goldmark.Convert (shared default instance)", 2,
 		func(cfg core.Cfg) *Instance {
 			mk := func(doc string) func() Result {
